@@ -257,14 +257,59 @@ structure Ctx where
   seqid : Str
   off : Nat
   raise : Bool
+  /-- `chromosome_relative_coordinates=False` -/
+  chunkRel : Bool
   deriving Repr, DecidableEq, Inhabited
+
+/-! ### CDS frames in chunk-relative mode (cds.py:121-171, 851-936)
+
+  `CDSInterval.chunk_relative_frames` does not subset the stored frames: it takes the 5'-most frame and
+  re-derives every other frame with `construct_frames_from_location` ("if you are modeling a programmed
+  frameshift using the Frames vector, this information will be lost").  For a CDS lying wholly inside the chunk
+  the distance from the 5' end is 0, so the starting frame is the stored 5'-most frame itself. -/
+
+def frameOfMod (v : Int) : CDSFrame := if v % 3 = 0 then .ZERO else if v % 3 = 1 then .ONE else .TWO
+
+/-- `CDSFrame.shift(shift)`; both branches of the Python compute `(value + shift) mod 3`
+    (tie lemma with the generated `Gen.CDSFrame_shift` in Proofs/GffRows.lean) -/
+def shiftFrame (f : CDSFrame) (s : Int) : CDSFrame :=
+  match f with
+  | .NONE => .NONE
+  | _ => frameOfMod (f.value + s)
+
+def framesFrom (cur : CDSFrame) : List Int → List CDSFrame
+  | [] => []
+  | s :: rest => let n := shiftFrame cur s; n :: framesFrom n rest
+
+/-- `CDSInterval.construct_frames_from_location(location, starting_frame)` on ascending blocks -/
+def constructFrames (blocks : List Blk) (strand : Strand) (sf : CDSFrame) : List CDSFrame :=
+  match blocks with
+  | [_] => [sf]
+  | _ =>
+    let ordered := if strand = .minus then blocks.reverse else blocks
+    let sizes : List Int := ordered.dropLast.map fun b => ((b.2 - b.1 : Nat) : Int)
+    let sizes := match sizes with | [] => [] | s :: r => (s - sf.value) :: r
+    let frames := match (CDSFrame.ZERO :: framesFrom .ZERO sizes) with | [] => [] | _ :: r => sf :: r
+    if strand = .minus then frames.reverse else frames
+
+/-- `next(self._frame_iter(chunk_relative_frames=False))`: the 5'-most stored frame -/
+def fivePrimeFrame (frames : List CDSFrame) (strand : Strand) : Option CDSFrame :=
+  if strand = .minus then frames.getLast? else frames.head?
+
+/-- the frames `CDSInterval.to_gff` zips with the blocks -/
+def exportFrames (cx : Ctx) (t : STx) (c : SCds) : List CDSFrame :=
+  if cx.chunkRel then
+    match fivePrimeFrame c.frames t.strand with
+    | some sf => constructFrames c.blocks t.strand sf
+    | none => []
+  else c.frames
 
 def enumFrom1 {α} (l : List α) : List (Nat × α) := (List.range l.length).zip l |>.map fun p => (p.1 + 1, p.2)
 
 /-- `CDSInterval.to_gff(parent, parent_qualifiers, …)` (cds.py:325-390) -/
 def cdsRows (cx : Ctx) (t : STx) (c : SCds) (parent : Str) (parentQuals : Quals) : List Row :=
   let q := cdsExportQuals t parentQuals
-  (enumFrom1 (c.blocks.zip c.frames)).map fun p =>
+  (enumFrom1 (c.blocks.zip (exportFrames cx t c))).map fun p =>
     { seqid := cx.seqid, type := .cds, start := p.2.1.1 - cx.off + 1, stop := p.2.1.2 - cx.off,
       strand := t.strand, phase := toPhase p.2.2,
       attrs := ⟨c.guid ++ '-' :: natStr p.1, some parent, t.pid, q, cx.raise⟩ }
@@ -359,9 +404,9 @@ def mkCtx (c : SColl) (chromRel : Bool) (raise : Bool) : Except Err Ctx :=
   | none => .error .Export
   | some s =>
     if s.isEmpty then .error .Export
-    else if chromRel then .ok ⟨s, 0, raise⟩
+    else if chromRel then .ok ⟨s, 0, raise, false⟩
     else match c.par with
-      | .chunk cs _ => .ok ⟨s, cs, raise⟩
+      | .chunk cs _ => .ok ⟨s, cs, raise, true⟩
       | _ => .error .NoSuchAncestor
 
 /-- the feature lines `collection_to_gff3` prints for one collection -/
